@@ -12,757 +12,977 @@ Definition show_fres (r : fres) : string :=
   end.
 Definition check (rs : list rune) : string := digest (show_fres (format_res rs)).
 Definition full (rs : list rune) : string := show_fres (format_res rs).
-Eval vm_compute in ("<<<M1529>>>" ++ check (runes_of_ascii "// c
-  	packet uint8x{
+Eval vm_compute in ("<<<M1545>>>" ++ check (runes_of_ascii "
+options{ 	 // c1
+    LittleEndian  // c2a
+// c2b
+  	= 	 // c3a
+	// c3b
+    	true
 
-    @tag( 65535	)
+; 
+// c5
+  StringPrefixLenType// c6a
+    // c6b
+=  u32; // c9a
+  // c9b
+    ArrayPrefixLenType 
+=	u8
+	// c12
+  ;  } 	 // c14a
 
-x_y_z,char[]
+// c14b
+    packet 	 // c15
+  Heartbeat// c16a
+    // c16b
+{  
+  // c17
+  	string
 
-a1  @calculatedFrom(
+// c18
+msgKind 
+// c19
+    , 	 // c20a
+// c20b
+	}	// c21a
+// c21b
 
-""`tick`""
-) , @tag( 1) @tag(  1 )@tag( 4294967296
-	)  repeat string rootA  `tab	here` ,repeat i32
+  packet// c22
+    	Logon 
+// c23
+  {repeat 
+      // c25
+  Heartbeat// c26a
 
-tag, }packet
-pack 
-{
-    @calculatedFrom(
-    ""// no comment"")
+// c26b
+  ,// c27a
+	// c27b
+repeat  // c28
+  string // c29
 
-@lengthOf( uint8x
-    )	string
-zchar @calculatedFrom(
-""`tick`""
-    ) 
+  Px  // c30a
+    // c30b
+      ,  // c31
+uint8  // c32a
+  	// c32b
+Tail 
+// c33
+	,
+char[]
+        // c35
+
+  f1 	 // c36a
+  	// c36b
+
+	, 
+	// c37
+}packet
+
+    // c39
+Cancel	// c40
+	{// c41a
+// c41b
+
+  zchar[ // c42a
+
+  // c42b
+    	4 
+      // c43
+  ]	OrderId// c45a
+    // c45b
 ,
-	}root  packet
 
-tag
-	{ 	 // trailing space 
-@tag(
-    42/// triple
-		)
+    // c46
+  Logon
+    // c47
+	, 
+    // c48
 
-    @lengthOf(As )  @leftPad  ( '0'
-    ) match u128
+  repeat
+InMsgkind98 
+    // c50
+    {	// c51
+  repeat // c52a
+	// c52b
+u8  // c53a
+// c53b
+tag7,// c55
+		repeat
+// c56
+InFlags69 // c57
+  { 	 // c58a
+  	// c58b
 
-    as
+  char[] 
+	    // c59
 
-float { [
+  Note// c60
+  	, // c61a
+// c61b
+  char[]
+	lastPx  // c63a
+// c63b
 
-    00] :  charz  ,
+	, // c64a
+// c64b
+		char[
+	11
+
+] 	 // c67
+
+  Ref, 
+  // c69
+	  Logon 
+	    // c70
+, // c71
+      } // c72
+		,	// c73a
+		// c73b
+
+repeat	// c74
+    Heartbeat ,
+	// c76
+    }// c77
+  , // c78a
+// c78b
+  zchar[// c79
+
+	7
+    // c80
+  ] 	 // c81a
+    // c81b
+    	Px 
+	    // c82
+
+	,  // c83
+  u32
+seqNo 
+, 
+// c86
+	  }// c87
+root
+    // c88
+	packet Reject // c90
+    	{
+	i16 	 // c92a
+
+// c92b
+  tag7// c93
+    , 
+
+// c94
+
+  char[ 
+
+    // c95
+		3	// c96a
+    // c96b
+] // c97
+  Qty // c98a
+// c98b
+, 	 // c99a
+  // c99b
+    InRef42 
+{
+u8
+    pad0	// c103a
+
+  // c103b
+    ,
+    // c104
+  }  // c105
+    	, 
+      // c106
+
+  uint32  // c107a
+	  // c107b
+	f1 // c108a
+
+// c108b
+	, 
+	    // c109
+	zchar[ 	 // c110
+7
+]
+
+OrderId	, 	 // c114a
+
+	// c114b
+zchar[ 	 // c115a
+// c115b
+8  // c116
+  	]x
+, 
+	// c119
+    	} ")).
+Eval vm_compute in ("<<<M106>>>" ++ check (runes_of_ascii "packet //	t
+packetx { } root packet repeatCount
+// trailing space 
+// 50% %s
+{
+    int16
+    rootA @lengthOf(// " ++ [27880; 37322]%N ++ runes_of_ascii "
+len) ``
+// " ++ [128512]%N ++ runes_of_ascii " emoji
+// trailing space 
+, i32 A
+@calculatedFrom( ""a\\"" ), i16 asx @calculatedFrom( ""x y""
+) ,repeat char[]
+    x,}
+root
+    packet
+lengthOf//x
+{ @leftPad ( '0')@calculatedFrom(
+""\" ++ [233]%N ++ runes_of_ascii """ ) @lengthOf( // @lengthOf(
+Z9_
+    ) repeat char[]  As
+, @rightPad ( ' ' // @lengthOf(
+)
+    repeat	zchar
+, match a1
+as pack
+{ [  3  ]
+    : lengthOf ,[ 007
+, ""x y"" ] :
+A, } ,
+    repeat chars { char[ 4294967296
+] //
+body , body @lengthOf( pack), string Z9_
+    , } , @leftPad( ' ' )
+zchar[ // packet A { u8 x, }
+255]Header , @tag(0
+//	t
+// 50% %s
+)repeat char[ 00 ]
+    // " ++ [27880; 37322]%N ++ runes_of_ascii "
+    roots	,match crc as body { ""`tick`"" ://	t
+a1 } , @tag( 1 ) char[] rootA @calculatedFrom( """ ++ [233]%N ++ runes_of_ascii "t" ++ [233]%N ++ runes_of_ascii """
+// `tick` ""quote"" 'q'
+//
+) // a // b
+,	} packet pack  {
+match Packet
+as /// triple
+repeatCount
+{
+    //x
+    ""a	b"" : pack, } , packetx packetx
+,//	t
+match
+    // c
+    o  as Packet { // a // b
+0123456789 :
+lengthOf,// `tick` ""quote"" 'q'
+""CRC32""
+    :
+i64_ , 1
+    :asx ,	""\" ++ [233]%N ++ runes_of_ascii """
+:
+    // packet A { u8 x, }
+    o
+    ,
+    ""a	b"" :u128, ""// no comment"" :Packet
+,
+    // `tick` ""quote"" 'q'
+    } ,
+    @leftPad ( '0')@calculatedFrom(
+    """ ++ [128512]%N ++ runes_of_ascii """ ) A @calculatedFrom( ""{,}""  ) `u8 x,`,	@tag( 255 ) float32 MetaDataX
+, char[]u128@lengthOf( zchar ),
+    match
+x	as _x
+{00 :
+A ,} ,
+    //	t
+    }")).
+Eval vm_compute in ("<<<M313>>>" ++ check (runes_of_ascii "root	packet packetx { /// triple
+@tag(//
+007	) int16
+int``
+    // `tick` ""quote"" 'q'
+    ,@calculatedFrom( ""x y"" ) repeat string a1
+`it's` ,@lengthOf(Header
+    )
+repeat
+char[ 1
+    ]
+    string_ `` , uint64
+falsey @lengthOf( i8i8 )
+    ,
+@lengthOf( u ) match
+    roots
+    as u128 {[ ""`tick`"" // " ++ [27880; 37322]%N ++ runes_of_ascii "
+,
+4294967296
+, """" ,
+65535 ,""" ++ [28040; 24687]%N ++ runes_of_ascii """ ,
+    /// triple
+    ""CRC32""
+    , ""a	b"" , ""a	b""] : options1
+,[ 007, ""abc"" , 65535  ] :
+A, 7 : f32a ,""abc""
+// " ++ [27880; 37322]%N ++ runes_of_ascii "
+// packet A { u8 x, }
+:
+    i8i8 , ""it's""	:
+o //	t
+, [ ""{,}"" /// triple
+, // `tick` ""quote"" 'q'
+42
+, 65535
+    //
+    ,"""" // `tick` ""quote"" 'q'
+,
+""a\""b"", 4294967296, 0
+    ] :T
+/// triple
+//x
+} ,
+@tag( 7 )	char
+o @calculatedFrom(  ""// no comment"")  , repeat f32
+    float// packet A { u8 x, }
+`line1
+line2` , @lengthOf( f32a )
+match rootA// c
+as matchKey {007	:x // packet A { u8 x, }
+,
+    """ ++ [233]%N ++ runes_of_ascii "t" ++ [233]%N ++ runes_of_ascii """
+:
+    charz
+,[ ""x y"" ,4294967296
+, 255 , 00
+// trailing space 
+// a // b
+]	: len} , @tag(
+0123456789 )	repeat
+    trueish
+    // @lengthOf(
+    i64_ , }packet
+    lengthOf
+{ }// a // b
+packet len
+{ @calculatedFrom(
+    /// triple
+    ""a	b"")  _x
+    roots`a\`, }
+//	t
+")).
+Eval vm_compute in ("<<<M1354>>>" ++ check (runes_of_ascii "options
+{ LittleEndian=
+
+    true
+;
+StringPrefixLenType  = 
+u8	;ArrayPrefixLenType
+
+    =u8
+; FixedStringPadFromLeft= 
+true ;
+
+    FixedStringPadChar	=
+'0'
+;	} 
+packet
+
+Logon{
+
+    repeat  i8
+Ref
+
+    ,
+
+@rightPad ('0'
+	)char[
+	8	]
+    msgKind,
+repeat
+
+InOrderid72 
+{
+    u8
+	Side2,
+uint32 Qty,  repeat  InPrice27 {repeat
+char[4]Acct  ,
+
+    u64 sym ,
+} 
+, zchar[
+	4	]
+	clOrdID
+
+    ,int16 lastPx ,  InAcct22
+{repeat	char[
+
+    3
+	]
+OrderId
+    ,
 
 }
+	,}
+
+,
+    int64
+
+    Px,}packet	Fill {  uint16
+Qty , repeat char[
+    1 ] Flags ,
+    i8
+
+    Ref 
+,	}
+	packet
+Logout
+{ @leftPad
+    ('0'
+
+)
+char[	3 ]
+	x
     ,
-} packet	chars
+int8
+f1 ,Logon
+, uint16
+venue
+    ,
 
-    {  @leftPad (  '\x00'
+    zchar[
+	2
 
-)char[ 10
+    ]Px
+    ,
+	}	packet
+
+Reject {	} root
+
+packet
+
+Leg{
+Fill
+,u16
+
+    msgKind	,
+	match 
+msgKind
+as
+Body 
+{ [
+182,83
+
+]
+
+    : 
+Fill ,
+
+    199 : 
+Reject 
+,
+137 :
+    Logout
+
+, 35:  Logon,
+}
+
+,
+    u32
+lastPx@calculatedFrom(  ""CRC32"" )  ,
+
+    }")).
+Eval vm_compute in ("<<<M9>>>" ++ check (runes_of_ascii "packet roots { u16 packetx`say ""hi""` ,  @tag( 00 )string trueish ,
+// 50% %s
+// @lengthOf(
+}	packet falsey {match o
+as zchar {
+[7
+,
+    // a // b
+    """ ++ [233]%N ++ runes_of_ascii "t" ++ [233]%N ++ runes_of_ascii """ ]:leftPad ,
+    ""a	b"" : f32a ,
+[""`tick`""
+, 10
+    /// triple
+    ,
+// @lengthOf(
+// `tick` ""quote"" 'q'
+4294967296, 255 ,
+10
+, ""{,}""
+// a // b
+//
+, """"
+    ]
+    : // a // b
+i64_
+, 00 : len , [ 10,
+    0,0123456789//x
+]
+:float }, repeat // 50% %s
+char[] BodyLength ,
+    @rightPad (
+    '0'
+    ) @calculatedFrom( // trailing space 
+""a	b""
+)match Foo as chars {	""" ++ [28040; 24687]%N ++ runes_of_ascii """ : asx, ""packet""	: _x , },} root /// triple
+packet x
+    { @calculatedFrom( """ ++ [233]%N ++ runes_of_ascii "t" ++ [233]%N ++ runes_of_ascii """
+)// c
+uint16 calculatedFrom , asx rootA `{ , }` , @calculatedFrom(	""" ++ [28040; 24687]%N ++ runes_of_ascii """ )	x A ,@lengthOf( u8x) @calculatedFrom(
+""1"" ) @lengthOf(
+    //x
+    uint8x )
+    zchar[ 65535]lengthOf
+`tab	here`,}")).
+Eval vm_compute in ("<<<M1392>>>" ++ check (runes_of_ascii "// top
+options // c0a
+  // c0b
+{ LittleEndian = // c3
+true
+    // c4
+; } // c6
+packet
+    // c7
+Sub { // c9a
+  // c9b
+u8 a // c11
+,
+    // c12
+@calculatedFrom( ""CRC16"" ) // c15a
+  // c15b
+u64 // c16a
+  // c16b
+SubSum // c17
+, // c18a
+  // c18b
+}
+    // c19
+root
+    // c20
+packet // c21a
+  // c21b
+Frame // c22
+{
+    // c23
+u16 // c24a
+  // c24b
+MsgType , // c26
+u16 BodyLen // c28a
+  // c28b
+@lengthOf( Body // c30
+) // c31
+, // c32a
+  // c32b
+Sub // c33a
+  // c33b
+Body , // c35
+string
+    // c36
+note
+    // c37
+,
+    // c38
+@calculatedFrom( // c39
+""CRC16""
+    // c40
+) // c41a
+  // c41b
+u64 Checksum
+    // c43
+,
+    // c44
+u8 // c45a
+  // c45b
+tail // c46
+, // c47
+} // c48a
+  // c48b
+")).
+Eval vm_compute in ("<<<M1401>>>" ++ check (runes_of_ascii "// top
+packet
+    // c0
+Sub // c1a
+  // c1b
+{ // c2
+u8 // c3
+a
+    // c4
+, // c5
+@calculatedFrom( // c6a
+  // c6b
+""CRC16"" // c7a
+  // c7b
+)
+    // c8
+i64 // c9
+SubSum
+    // c10
+, // c11
+}
+    // c12
+root
+    // c13
+packet // c14
+Frame // c15
+{ // c16a
+  // c16b
+u16 MsgType , u16 BodyLen @lengthOf( // c22a
+  // c22b
+Body
+    // c23
+) // c24a
+  // c24b
+, Sub // c26a
+  // c26b
+Body
+    // c27
+,
+    // c28
+string
+    // c29
+note // c30a
+  // c30b
+, // c31a
+  // c31b
+@calculatedFrom(
+    // c32
+""CRC16"" // c33a
+  // c33b
+)
+    // c34
+i64 // c35
+Checksum , // c37
+u8 // c38
+tail // c39
+, } // c41a
+  // c41b
+")).
+Eval vm_compute in ("<<<M1875>>>" ++ check (runes_of_ascii "options {
+    charz = false;
+    Z9_ = ""\" ++ [233]%N ++ runes_of_ascii """;// c
+}
+
+options {
+    falsey = char[];
+}
+
+packet metadata {
+    @tag(4294967296)
+    match int as float {
+        [
+            0, 0123456789, 42, 7, ""a\""b"",
+            7
+        ] : zchar,
+        ""1"" : options1,
+    },
+    @tag(10)
+    match msg_type as Foo {
+        ""a	b"" : rootA,
+        65535 : roots,
+        00 : trueish,
+        ""\" ++ [233]%N ++ runes_of_ascii """ : MetaDataX,
+        //x
+        // 50% %s
+        00 : Logon,
+    },
+    repeat len packetx,
+    @lengthOf(Foo)
+    len `two words`,
+    roots,
+}//x")).
+Eval vm_compute in ("<<<M1386>>>" ++ check (runes_of_ascii "options
+
+    {
+LittleEndian = false
+
+    ;
+	StringPrefixLenType =
+
+u16
+;FixedStringPadFromLeft =	true
+
+    ;	FixedStringPadChar  = 
+'0' ; } packet
+
+Fill 
+{
+	}
+
+    root
+    packet
+
+Order	{
+repeat
+
+Fill  , 
+char[]clOrdID  ,
+    @rightPad
+    ('\x00'	)
+
+    char[4
 
     ]
 
-    len
-	@calculatedFrom( ""a	b"") 
-,@tag(00)@tag( 
-10
+lastPx
+, char[] 
+OrderId	, int8 tag7
 
-)uint64  matchKey
-    , x_y_z {	repeat 	 // packet A { u8 x, }
-  string
+    ,u8 f1
+, u16 count
 
-rootA`doc`  ,
+    @lengthOf( Body
+    ) ,match
+f1
 
-    tag// packet A { u8 x, }
-  ,
-repeat char  
-      //x
-	//	t
-	MetaDataX
-
-,
-int64
-    asx
-	// 50% %s
-  	,} , 	 // trailing space 
-    	i16
-	stringy,
-	match 
-x_y_z  as
-BodyLength//x
-		{ [  ""\" ++ [233]%N ++ runes_of_ascii """ ,
-""" ++ [28040; 24687]%N ++ runes_of_ascii """,
-	7
-
-,
-    0	,
-	7 ,  4294967296
-	]
-    :
-
-    A
-
-, // " ++ [128512]%N ++ runes_of_ascii " emoji
-},
-
-    @calculatedFrom(
-    ""\n"" )
-    @leftPad 
-	    //
-
-  ( 
-)
-	f64 
-msg_type
-
-    ,repeat
-
-    Logon
-	`say ""hi""`
-    , @tag(
-007)
-match
-crc
 as
-
-    msg_type  {
-	[ ""a\\"" 
-,
-
-0123456789 ,
-""`tick`"" ,
-	""" ++ [233]%N ++ runes_of_ascii "t" ++ [233]%N ++ runes_of_ascii """
-
-,
-    //
-// trailing space 
-  	""{,}"" , 	 // a // b
-	255  ,
-	0123456789 
-      //
-  ]: // packet A { u8 x, }
-	  Header
-	0123456789
-	:
-len // c
-
-,
-65535 : BodyLength	, ""CRC32""
-    :
-
-    string_	// " ++ [128512]%N ++ runes_of_ascii " emoji
-,
-    4294967296
-
-    :  len
-,
-""" ++ [28040; 24687]%N ++ runes_of_ascii """:
-trueish
-}
-
-    ,repeat
-
-string u
-	,
-	lengthOf Z9_  `{ , }`
-,
-	} // 50% %s
-  	packet 
-trueish
+Body
 
     {
+	[159
+	, 
+49	]:
+    Fill
 
-f32
-Logon	@calculatedFrom(
-
-""1"" )
-    ,  i64
-
-matchKey@calculatedFrom( ""x y""// a // b
-  )	//x
-    `" ++ [28040; 24687; 31867; 22411]%N ++ runes_of_ascii "` 
-,i8i8`it's` , msg_type,	uint8
-	lengthOf,
-	int
-
-trueish , char[ 0123456789 ] uint8x ,
-	i8
-
-    int@lengthOf( msg_type	)
-
-`say ""hi""` , @rightPad 
-(
-) repeat f64 Z9_,
-metadata{  falsey@calculatedFrom(
-	""abc""
-	)
-    ,
-
-} 	 //
-		,	}")).
-Eval vm_compute in ("<<<M379>>>" ++ check (runes_of_ascii "options {
-	StringPrefixLenType = u16;
-	ArrayPrefixLenType = u16;
-}
-
-packet SampleBinary {
-    uint16 MsgType `" ++ [28040; 24687; 31867; 22411]%N ++ runes_of_ascii "`,
-    u16 BodyLenght @lengthOf(Body) `" ++ [28040; 24687; 20307; 38271; 24230]%N ++ runes_of_ascii "`,
-    match MsgType as Body {
-        1 : Logon,
-        2 : Logout,
-        3 : Heartbeat,
-        4 : RiskControlRequest,
-        5 : RiskControlResponse,
-    },
-        @calculatedFrom(""CRC32"")
-    u32 Ckecksum `" ++ [26657; 39564; 21644]%N ++ runes_of_ascii "`,
-}
-
-packet Logon {
-     @leftPad('0')
-    char[10] UserName `" ++ [29992; 25143; 21517]%N ++ runes_of_ascii "`,
-    string Password `" ++ [23494; 30721]%N ++ runes_of_ascii "`,
-    uint64 ClientId `" ++ [23458; 25143; 31471]%N ++ runes_of_ascii "ID`,
-    u16 HeartbeatInterval `" ++ [24515; 36339; 38388; 38548]%N ++ runes_of_ascii "`,
-}
-
-packet Logout {
-      @rightPad('0')
-    char[10] UserName `" ++ [29992; 25143; 21517]%N ++ runes_of_ascii "`,
-    uint64 ClientId `" ++ [23458; 25143; 31471]%N ++ runes_of_ascii "ID`,
-}
-
-packet Heartbeat {
-}
-
-packet RiskControlRequest {
-    string UniqueOrderId `" ++ [21807; 19968; 35746; 21333; 21495]%N ++ runes_of_ascii "`,
-    char[16] ClOrdID `" ++ [23458; 25143; 35746; 21333; 21495]%N ++ runes_of_ascii "`,
-    char[3] MarketID `" ++ [24066; 22330]%N ++ runes_of_ascii "id`,
-    char[12] SecurityID `" ++ [35777; 21048; 20195; 30721]%N ++ runes_of_ascii "`,
-    char Side `" ++ [20080; 21334; 26041; 21521]%N ++ runes_of_ascii "`,
-    char OrderType `" ++ [35746; 21333; 31867; 22411]%N ++ runes_of_ascii "`,
-    u64 Price `" ++ [20215; 26684]%N ++ runes_of_ascii "`,
-    u32 Qty `" ++ [25968; 37327]%N ++ runes_of_ascii "`,
-    repeat string ExtraInfo `" ++ [38468; 21152; 20449; 24687]%N ++ runes_of_ascii "`,
-    repeat SubOrder {
-    		char[16] ClOrdID `" ++ [23376; 35746; 21333; 21495]%N ++ runes_of_ascii "`,
-    		u64 Price `" ++ [23376; 35746; 21333; 20215; 26684]%N ++ runes_of_ascii "`,
-    		u32 Qty `" ++ [23376; 35746; 21333; 25968; 37327]%N ++ runes_of_ascii "`,
-    	},
-}
-
-packet RiskControlResponse {
-    string UniqueOrderId `" ++ [21807; 19968; 35746; 21333; 21495]%N ++ runes_of_ascii "`,
-    i32 Status `" ++ [29366; 24577]%N ++ runes_of_ascii "`,
-    string Msg `" ++ [32467; 26524; 20449; 24687]%N ++ runes_of_ascii "`,
-    repeat Detail,
-}
-
-packet Detail {
-    string RuleName `" ++ [35268; 21017; 21517; 31216]%N ++ runes_of_ascii "`,
-    u16 Code `" ++ [21407; 22240; 20195; 30721]%N ++ runes_of_ascii "`,
-}")).
-Eval vm_compute in ("<<<M1636>>>" ++ check (runes_of_ascii "options {
-}
-
-packet x {
-    repeat rootA {
-        repeat string Header,
-    },
-    chars float,
-    @tag(65535)
-    x_y_z {
-        repeat T `// not a comment`,
-        string string_ @lengthOf(x_y_z) `say ""hi""`,
-        Header len ``,
-        string lengthOf,
-    },
-    @tag(0123456789)
-    match crc as BodyLength {
-        ""\" ++ [233]%N ++ runes_of_ascii """ : repeatCount,
-        65535 : i8i8,
-        0 : A,
-        [""a	b"", 7] : packetx,
-    },
-    @lengthOf(charz)
-    match body as uint8x {
-        // 50% %s
-        00 : stringy,
-        [007, ""`tick`"", ""\n""] : T,
-        [""// no comment"", ""a\\""] : float,
-        [10] : A,
-        ""a	b"" : roots,
-    },
-    pack {
-        match Pad as calculatedFrom {
-            255 : string_,
-            """ ++ [28040; 24687]%N ++ runes_of_ascii """ : i64_,
-        },// " ++ [27880; 37322]%N ++ runes_of_ascii "
-        uint32 matchKey @calculatedFrom(""1""),
-        len leftPad,
-        repeat MetaDataX {
-            i64 len,
-        },
-    },
-    char[] tag @calculatedFrom(""packet"") `line1
-    line2`,
-    float,
-    uint8x @lengthOf(crc) `it's`,
-    @tag(007)
-    float32 tag @calculatedFrom(""" ++ [233]%N ++ runes_of_ascii "t" ++ [233]%N ++ runes_of_ascii """),
-}")).
-Eval vm_compute in ("<<<M122>>>" ++ check (runes_of_ascii "
-packet metadata { float // " ++ [27880; 37322]%N ++ runes_of_ascii "
-, repeat string calculatedFrom , @rightPad ( ' ' ) chars
-a1,
-    @leftPad ('0')	@tag(
-    255 ) @calculatedFrom( """ ++ [233]%N ++ runes_of_ascii "t" ++ [233]%N ++ runes_of_ascii """ )
-match trueish as x { // packet A { u8 x, }
-""x y"":
-calculatedFrom [
-    42 ]
-    // 50% %s
-    : float ,  3 // @lengthOf(
-:packetx // c
 ,
-} ,
-zchar[ 00 ]	crc , repeat
-char[ 1 ] roots`doc` ,// trailing space 
-match float as Logon
-{
-7 :metadata,
-    },@lengthOf(
-    Logon )
-    @tag(
-    00 ) @tag(42 )
-    match Logon as options1
-{7 :MetaDataX 3
-:// " ++ [128512]%N ++ runes_of_ascii " emoji
-calculatedFrom ,10 :Pad // 50% %s
-, [
-    """ ++ [128512]%N ++ runes_of_ascii """ , ""// no comment""
-]: packetx
-,
-[ 42
-, ""packet"" , ""1""
-,
-""a\""b""
-, 42 ]: Z9_ },
-    float32// a // b
-falsey //	t
-`{ , }` ,
-@calculatedFrom( ""CRC32"" )i64 As
-    `doc`
-    ,
-}/// triple
-packet	_x // " ++ [27880; 37322]%N ++ runes_of_ascii "
-{
-repeat
-    //	t
-    u {
-    // " ++ [27880; 37322]%N ++ runes_of_ascii "
-    repeat zchar calculatedFrom//	t
-`a\` , leftPad A
-`it's` , string leftPad @lengthOf(Pad )``, } ,
     }
-// a // b
-")).
-Eval vm_compute in ("<<<M1583>>>" ++ check (runes_of_ascii "
-// a // b
-  packet
 
-    rootA
-    {@tag(
-
-    0
-)
-string falsey @calculatedFrom(  ""// no comment"" 
-)	,  u32
-string_
-
-,	}
-	packet  Header	{ 
-        //	t
-
-	repeat 	 // c
-      zchar[10	// " ++ [27880; 37322]%N ++ runes_of_ascii "
-] 
-Header`" ++ [28040; 24687; 31867; 22411]%N ++ runes_of_ascii "`
-,}root
-    packet 	 // trailing space 
-		charz
-    {
-@tag(42
-    )	f32	Z9_  // packet A { u8 x, }
-
-  @calculatedFrom( ""a\""b"")  `it's`
-
-    , @calculatedFrom(	""\" ++ [233]%N ++ runes_of_ascii """
-	)match
-
-    rootA  as
-    rootA  {
-    """ ++ [28040; 24687]%N ++ runes_of_ascii """:
-//	t
-  x	7//
-	  :
-    charz }	, // c
-  int64
-metadata @calculatedFrom(
-
-    """ ++ [233]%N ++ runes_of_ascii "t" ++ [233]%N ++ runes_of_ascii """  )
-    ,
-	match  i8i8
-    as
-	i64_
-    { 3  : Logon
-	, [
-	7, 
-""" ++ [28040; 24687]%N ++ runes_of_ascii """
-]: repeatCount
-    // `tick` ""quote"" 'q'
-,  ""\" ++ [233]%N ++ runes_of_ascii """
-:msg_type  //
-	,
-} 
-        //
-		, @lengthOf(
-
-    Logon
-
-    )
-repeat
-
-    leftPad
-    BodyLength,repeat //	t
-uint8x `
-`
-	,
-} ")).
-Eval vm_compute in ("<<<M1970>>>" ++ check (runes_of_ascii "root packet crc {
-    MetaDataX @calculatedFrom(""// no comment""),// " ++ [27880; 37322]%N ++ runes_of_ascii "
-    @calculatedFrom("""")
-    // trailing space 
-    len metadata,
-    @tag(0)
-    // `tick` ""quote"" 'q'
-    // c
-    char As `doc`,
-    @lengthOf(crc)
-    repeat leftPad {
-        repeat chars u8x `// not a comment`,
-        uint8x {
-            repeat char[10] crc,
-            options1,
-        },
-        // " ++ [128512]%N ++ runes_of_ascii " emoji
-        // trailing space 
-        match leftPad as Packet {
-            ""// no comment"" : chars,
-            [42, 0] : a1,
-            // c
-            ""\n"" : len,
-            3 : Header,
-        },
-        char[] options1 @lengthOf(f32a) `
-                `,
-    },// a // b
-}")).
-Eval vm_compute in ("<<<M1195>>>" ++ check (runes_of_ascii "// top
-options // c0
-{ // c1
-} // c2
-MetaData // c3
-packetx // c4
-{ // c5
-int // c6
-falsey // c7
-`two words` // c8
-, // c9
-int32 // c10
-trueish // c11
-, // c12
-char[] // c13
-u8x // c14
-, // c15
-A // c16
-x // c17
-`// not a comment` // c18
-, // c19
-} // c20
-root // c21
-packet // c22
-i8i8 // c23
-{ // c24
-@lengthOf( // c25
-repeatCount // c26
-) // c27
-@tag( // c28
-1 // c29
-) // c30
-@calculatedFrom( // c31
-""a	b"" // c32
-) // c33
-string // c34
-stringy // c35
-@calculatedFrom( // c36
-""\n"" // c37
-) // c38
-`line1
-line2` // c39
-, // c40
-pack // c41
-`100% of %d` // c42
-, // c43
-} // c44
-")).
-Eval vm_compute in ("<<<M342>>>" ++ check (runes_of_ascii "packet x
-{ @lengthOf( options1
-//
-//x
-)
-uint8
-    MetaDataX
-`// not a comment`
-    , packetx ,  @tag(
-42  )
-_x
-@calculatedFrom(
-// " ++ [27880; 37322]%N ++ runes_of_ascii "
-//
-""abc"" ) `" ++ [28040; 24687; 31867; 22411]%N ++ runes_of_ascii "`  , @lengthOf( stringy)string trueish
-`
-` , o	stringy`{ , }` , zchar[ 007 ] Logon , // 50% %s
-@rightPad
-(	'\x00'
-)repeat// 50% %s
-lengthOf{char[
-    65535 ]u128 ,int8 A , body { match // trailing space 
-x
-as
-options1 {
-7:
-    // trailing space 
-    roots // " ++ [128512]%N ++ runes_of_ascii " emoji
+    ,  u16  Tail  @calculatedFrom(
 ""CRC32""
-:// packet A { u8 x, }
-i8i8  , }
-,
-} , } , }
-    //	t
-    packet As {
-} // @lengthOf(")).
-Eval vm_compute in ("<<<M1160>>>" ++ check (runes_of_ascii "// top
+
+    ), 
+}")).
+Eval vm_compute in ("<<<M1161>>>" ++ check (runes_of_ascii "// top
 MetaData
     // c0
 x
     // c1
-{
-    // c2
-f32a
-    // c3
+{ // c2
+f32a // c3a
+  // c3b
 Pad
     // c4
-``
-    // c5
-,
-    // c6
+`` // c5a
+  // c5b
+, // c6a
+  // c6b
 }
     // c7
-packet
-    // c8
-leftPad
-    // c9
-{
-    // c10
-repeat
-    // c11
-int64
-    // c12
-crc
-    // c13
-,
-    // c14
+packet leftPad { // c10a
+  // c10b
+repeat // c11
+int64 // c12
+crc // c13a
+  // c13b
+, // c14a
+  // c14b
 BodyLength
     // c15
 {
     // c16
-uint8
-    // c17
-pack
-    // c18
-`say ""hi""`
-    // c19
+uint8 pack // c18
+`say ""hi""` // c19a
+  // c19b
 ,
     // c20
-lengthOf
-    // c21
-@lengthOf(
-    // c22
+lengthOf @lengthOf( // c22
 asx
     // c23
-)
-    // c24
-`" ++ [28040; 24687; 31867; 22411]%N ++ runes_of_ascii "`
-    // c25
-,
+) // c24a
+  // c24b
+`" ++ [28040; 24687; 31867; 22411]%N ++ runes_of_ascii "` ,
     // c26
-}
-    // c27
-,
-    // c28
-}
-    // c29
+} // c27a
+  // c27b
+, // c28
+} // c29a
+  // c29b
 ")).
-Eval vm_compute in ("<<<M1475>>>" ++ check (runes_of_ascii "// top
-options {
-    // c1
-    uint8x = 007;// c5
-    lengthOf = i8;// c9
-}// c10
-
-packet i64_ {
-    // c13
-    @calculatedFrom(""1"")
-    // c16
-    @tag(3)
-    // c19
-    @lengthOf(rootA)
-    // c22
-    repeat int8 Packet `tab	here`,// c27
-}// c28
-
-packet _x {
-    // c31
-    matchKey x `" ++ [28040; 24687; 31867; 22411]%N ++ runes_of_ascii "`,// c35
-    int32 calculatedFrom `100% of %d`,// c39
-    @lengthOf(trueish)
-    // c42
-    Packet,// c44
-    repeat f32 o,// c48
-}// c49")).
-Eval vm_compute in ("<<<M1614>>>" ++ check (runes_of_ascii "packet _x {
-    calculatedFrom @lengthOf(roots) `it's`,
-    match metadata as BodyLength {
-        [
-            10, 10, ""a\""b"", """", ""\n"",
-            ""a\\"", 4294967296
-        ] : u,
+Eval vm_compute in ("<<<M1581>>>" ++ check (runes_of_ascii "packet repeatCount {
+    @tag(7)
+    match T as i64_ {
+        """ ++ [233]%N ++ runes_of_ascii "t" ++ [233]%N ++ runes_of_ascii """ : body,
     },
-    repeat i64_ Packet `{ , }`,// packet A { u8 x, }
-    @tag(65535)
-    char[] float `crlf
-    line`,
-    char[7] x @calculatedFrom(""{,}""),
-    @leftPad( )
-    u64 stringy @calculatedFrom(""\" ++ [233]%N ++ runes_of_ascii """),
-}
-
-packet A {
+    @lengthOf(crc)
+    float64 body `u8 x,`,
+    repeat rootA {
+        int16 x_y_z `two words`,
+        zchar[4294967296] trueish `two words`,
+        Pad @lengthOf(Pad) `// not a comment`,
+    },
+    tag string_,
+    @lengthOf(len)
+    // packet A { u8 x, }
+    @tag(255)
+    @lengthOf(Logon)
+    int,
+    Foo @lengthOf(leftPad) `
+    `,
 }")).
-Eval vm_compute in ("<<<M1493>>>" ++ check (runes_of_ascii "options
-{ StringPrefixLenType =
-	u16	; 
-ArrayPrefixLenType
-	= u64;  }
-packet
-    Order {
-	float64 Ref
-    ,
-	repeat
-	i32
-    lastPx
-	,
+Eval vm_compute in ("<<<M1853>>>" ++ check (runes_of_ascii "options {
+    // c1
+    LittleEndian = true;// c5
+}// c6a
 
-    }
-
-    packet
-	Fill
-	{zchar[ 9 ] Ref	,
-	zchar[  4]Px
-	,
-	Order
-
-    , int8
-    count
-    , }
-packet Cancel{	i16 Side2
-	, Order
-	,
-}root
-    packet
-Party	{  float64
-    Px
-
-    ,
-
-zchar[1
-]
-	clOrdID ,
-
-    } ")).
-Eval vm_compute in ("<<<M241>>>" ++ check (runes_of_ascii "MetaData A { u32 charz `doc` , // 50% %s
-char[ 255 ] packetx ,uint64
-f32a `" ++ [233]%N ++ runes_of_ascii "` ,
-x Packet  `{ , }`
-,}MetaData BodyLength {	zchar[ 007
-] Packet ,
-    BodyLength leftPad ,char	packetx , zchar[ 3 ]
-    // @lengthOf(
-    _x // trailing space 
-, string i8i8 ,
-} MetaData MetaDataX	{	metadata BodyLength
-/// triple
-// 50% %s
-`doc` , }
-")).
-Eval vm_compute in ("<<<M1319>>>" ++ check (runes_of_ascii "packet A {
+// c6b
+packet Sub {
+    // c9
     u8 a,
+    // c12
+    u16 SubSum @calculatedFrom(""CRC16""),
+    // c18
+}// c19
+
+root packet Frame {
+    // c23
+    u16 MsgType,
+    u16 BodyLen @lengthOf(Body),
+    Sub Body,// c35a
+    // c35b
+    string note,// c38a
+    // c38b
+    u16 Checksum @calculatedFrom(""CRC16""),
+    u8 tail,
+    // c47
+}// c48")).
+Eval vm_compute in ("<<<M1700>>>" ++ check (runes_of_ascii "packet string_ {
+    @tag(4294967296)
+    repeat u `crlf
+        line`,
+    repeat zchar[0] BodyLength,
+    @tag(255)
+    int `say ""hi""`,
+    uint8x `u8 x,`,
+    @leftPad(' ')
+    string MetaDataX @lengthOf(options1),
+    zchar[00] charz `" ++ [28040; 24687; 31867; 22411]%N ++ runes_of_ascii "`,
+    @calculatedFrom(""" ++ [128512]%N ++ runes_of_ascii """)
+    _x calculatedFrom,
+    uint8 packetx `it's`,
+    @leftPad()
+    zchar[0] Foo `a\`,
+}")).
+Eval vm_compute in ("<<<M1530>>>" ++ check (runes_of_ascii "MetaData msg_type {
+    //
+    u8 Foo `// not a comment`,
+    char[007] Pad `u8 x,`,
+    f32 o,
+    char[0123456789] falsey,
+    float64 metadata,
+    zchar[0123456789] uint8x,
 }
-packet B {
-    u16 b,
+
+packet string_ {
+    i16 leftPad `// not a comment`,
 }
-packet C {
-    u32 c,
-}
-root packet M {
-    u16 Kc, u16 Kb, u16 Ka,
-    match Kc as X {
-        9 : A,
-        10 : B,
-    },
-    match Kb as Y {
-        2 : C,
-        1 : A,
-    },
-    match Ka as Z {
-        1 : B,
-    },
-    A, B, C,
-}
-")).
-Eval vm_compute in ("<<<M1397>>>" ++ check (runes_of_ascii "options {
+
+packet zchar {
+    MetaDataX @calculatedFrom(""a	b"") `tab	here`,
+    @tag(255)
+    string i64_,
+}")).
+Eval vm_compute in ("<<<M69>>>" ++ check (runes_of_ascii "// " ++ [27880; 37322]%N ++ runes_of_ascii "
+options
+    { calculatedFrom
+    = '\x00'
+packetx= """ ++ [28040; 24687]%N ++ runes_of_ascii """
+    ;i8i8 = """ ++ [28040; 24687]%N ++ runes_of_ascii """; body =
+    '0' falsey= 10
+} packet o {
+    calculatedFrom
+    {
+    repeat
+// c
+// `tick` ""quote"" 'q'
+zchar[0
+    ] a1 , char[] f32a // trailing space 
+`" ++ [28040; 24687; 31867; 22411]%N ++ runes_of_ascii "`
+//x
+// " ++ [128512]%N ++ runes_of_ascii " emoji
+,
+} ,	} // packet A { u8 x, }")).
+Eval vm_compute in ("<<<M1391>>>" ++ check (runes_of_ascii "options {
     LittleEndian = true;
 }
 packet Sub {
     u8 a,
-    u16 SubSum @calculatedFrom(""CRC16""),
+    @calculatedFrom(""CRC16"") u64 SubSum,
 }
 root packet Frame {
     u16 MsgType,
     u16 BodyLen @lengthOf(Body),
     Sub Body,
     string note,
-    u16 Checksum @calculatedFrom(""CRC16""),
+    @calculatedFrom(""CRC16"") u64 Checksum,
     u8 tail,
 }
 ")).
-Eval vm_compute in ("<<<M399>>>" ++ check (runes_of_ascii "packet
-    asx options @calculatedFrom(
+Eval vm_compute in ("<<<M452>>>" ++ check (runes_of_ascii "packet
+    asx { @calculatedFrom(
+""""  ) @tag( 255 )repeat
+// packet A { u8 x, }
+// trailing space 
+int16 u8x
+,
+@tag( @tag(
+    //
+    007 )
+    @tag( 0
+    /// triple
+    ) @tag( 1) u
+    @lengthOf( T ),
+// `tick` ""quote"" 'q'
+//x
+} // " ++ [128512]%N ++ runes_of_ascii " emoji")).
+Eval vm_compute in ("<<<M497>>>" ++ check (runes_of_ascii "packet
+    asx { @calculatedFrom(
+""""  ) @tag( 255 )repeat
+// packet A { u8 x, }
+// trailing space 
+int16 u8x
+,
+@tag(
+    //
+    007 )
+    @tag( 0
+    /// triple
+    ) @tag( 1) u u
+    @lengthOf( T ),
+// `tick` ""quote"" 'q'
+//x
+} // " ++ [128512]%N ++ runes_of_ascii " emoji")).
+Eval vm_compute in ("<<<M443>>>" ++ check (runes_of_ascii "packet
+    asx { @calculatedFrom(
+""""  ) @tag( 255 )repeat
+// packet A { u8 x, }
+// trailing space 
+int16 ,
+u8x
+@tag(
+    //
+    007 )
+    @tag( 0
+    /// triple
+    ) @tag( 1) u
+    @lengthOf( T ),
+// `tick` ""quote"" 'q'
+//x
+} // " ++ [128512]%N ++ runes_of_ascii " emoji")).
+Eval vm_compute in ("<<<M461>>>" ++ check (runes_of_ascii "packet
+    asx { @calculatedFrom(
+""""  ) @tag( 255 )repeat
+// packet A { u8 x, }
+// trailing space 
+int16 u8x
+,
+@tag(
+    //
+    007 
+    @tag( 0
+    /// triple
+    ) @tag( 1) u
+    @lengthOf( T ),
+// `tick` ""quote"" 'q'
+//x
+} // " ++ [128512]%N ++ runes_of_ascii " emoji")).
+Eval vm_compute in ("<<<M404>>>" ++ check (runes_of_ascii "packet
+    asx { options
 """"  ) @tag( 255 )repeat
 // packet A { u8 x, }
 // trailing space 
@@ -778,304 +998,218 @@ int16 u8x
 // `tick` ""quote"" 'q'
 //x
 } // " ++ [128512]%N ++ runes_of_ascii " emoji")).
-Eval vm_compute in ("<<<M469>>>" ++ check (runes_of_ascii "packet
-    asx { @calculatedFrom(
-""""  ) @tag( 255 )repeat
-// packet A { u8 x, }
-// trailing space 
-int16 u8x
-,
-@tag(
-    //
-    007 )
-    float64 0
-    /// triple
-    ) @tag( 1) u
-    @lengthOf( T ),
-// `tick` ""quote"" 'q'
-//x
-} // " ++ [128512]%N ++ runes_of_ascii " emoji")).
-Eval vm_compute in ("<<<M408>>>" ++ check (runes_of_ascii "packet
-    asx { @calculatedFrom(
-)  """" @tag( 255 )repeat
-// packet A { u8 x, }
-// trailing space 
-int16 u8x
-,
-@tag(
-    //
-    007 )
-    @tag( 0
-    /// triple
-    ) @tag( 1) u
-    @lengthOf( T ),
-// `tick` ""quote"" 'q'
-//x
-} // " ++ [128512]%N ++ runes_of_ascii " emoji")).
-Eval vm_compute in ("<<<M112>>>" ++ check (runes_of_ascii "packet
-    options1 { @calculatedFrom( """" )@rightPad
-    ( '\x00'	) char[007] msg_type ,	i64 Header
-`" ++ [233]%N ++ runes_of_ascii "` ,
-    //	t
-    @calculatedFrom( ""packet"" )  @calculatedFrom( ""`tick`"" ) @calculatedFrom( ""a	b"" )
-    i32 options1 @lengthOf(Pad )  ,}
+Eval vm_compute in ("<<<M191>>>" ++ check (runes_of_ascii "packet T { } MetaData lengthOf{  char[ 4294967296 ] a1	, float64
+    body `100% of %d`,
+asx Foo ,	u8x pack
+// @lengthOf(
+// " ++ [128512]%N ++ runes_of_ascii " emoji
+, zchar[
+    // @lengthOf(
+    0123456789 ] Z9_
+, char
+As `crlf
+line`
+, }
 ")).
-Eval vm_compute in ("<<<M164>>>" ++ check (runes_of_ascii "options {falsey = 42 }  options { A
-= 0123456789 ; options1 =	""// no comment""o = ""// no comment"" ; u8x =
-// 50% %s
-// 50% %s
-true ;
-} root packet Z9_ // " ++ [128512]%N ++ runes_of_ascii " emoji
-{	} root packet
-o
-    {
-@tag(65535 )repeat f32 Logon `100% of %d` ,}
+Eval vm_compute in ("<<<M318>>>" ++ check (runes_of_ascii "packet pack	{} options
+    {_x
+    =""1""	; tag = 007
+    matchKey= ""it's"";
+charz
+    =
+uint16 ; } // @lengthOf(
+options {
+msg_type =007  ;
+    stringy
+=
+    ""`tick`""stringy =
+    007 ;}
 ")).
-Eval vm_compute in ("<<<M1689>>>" ++ check (runes_of_ascii "packet asx {
-    @calculatedFrom("""")
-    @tag(255)
-    // packet A { u8 x, }
-    // trailing space 
-    int16 u8x,
-    @tag(007)
-    @tag(0)
-    @tag(1)
-    u @lengthOf(T),
-    // `tick` ""quote"" 'q'
-    //x
-}// " ++ [128512]%N ++ runes_of_ascii " emoji")).
-Eval vm_compute in ("<<<M510>>>" ++ check (runes_of_ascii "packet
-    asx { @calculatedFrom(
-""""  ) @tag( 255 )repeat
-// packet A { u8 x, }
-// trailing space 
-int16 u8x
-,
-@tag(
-    //
-    007 )
-    @tag( 0
-    /// triple
-    ) @tag( 1) u
-    @lengthOf(")).
-Eval vm_compute in ("<<<M1837>>>" ++ check (runes_of_ascii "packet T {
-}
+Eval vm_compute in ("<<<M1912>>>" ++ check (runes_of_ascii "
+packet
+    u8x  {
+char[]
+f32a
+    @lengthOf(
+	Foo)  `100% of %d`
+	,
 
-MetaData lengthOf {
-    char[4294967296] a1,
-    float64 body `100% of %d`,
-    asx Foo,
-    u8x pack,
-    zchar[0123456789] Z9_,
-    char As `crlf
-        line`,
-}")).
-Eval vm_compute in ("<<<M1762>>>" ++ check (runes_of_ascii "packet asx {
-    @calculatedFrom("""")
-    @tag(255)
-    repeat u8x,
-    @tag(007)
-    @tag(0)
-    @tag(1)
-    u @lengthOf(T),
-    // `tick` ""quote"" 'q'
-    //x
-}// " ++ [128512]%N ++ runes_of_ascii " emoji")).
-Eval vm_compute in ("<<<M612>>>" ++ check (runes_of_ascii "MetaData u
-    { } MetaData o
-{ float uint8x
-`100% of %d` ,repeatCount u8x, , string_ leftPad
-, i32
-    Foo , int64 x `two words` , calculatedFrom
-stringy `a\` ,
+repeat i8i8
+{
+A	f32a  ,
+x
+    `say ""hi""`
+    , 
+      // @lengthOf(
+	repeat  body	rootA  `
+`	,
 }
-")).
-Eval vm_compute in ("<<<M558>>>" ++ check (runes_of_ascii "MetaData u
-    } { MetaData o
-{ float uint8x
-`100% of %d` ,repeatCount u8x, string_ leftPad
-, i32
-    Foo , int64 x `two words` , calculatedFrom
-stringy `a\` ,
-}
-")).
-Eval vm_compute in ("<<<M551>>>" ++ check (runes_of_ascii "MetaData 
-    { } MetaData o
-{ float uint8x
-`100% of %d` ,repeatCount u8x, string_ leftPad
-, i32
-    Foo , int64 x `two words` , calculatedFrom
-stringy `a\` ,
-}
-")).
-Eval vm_compute in ("<<<M709>>>" ++ check (runes_of_ascii "packet
-crc
-{repeat  Foo A   ,	@lengthOf( uint8x ) string
-matchKey @lengthOf( stringy ) `a\`
 ,
-    // c
+}")).
+Eval vm_compute in ("<<<M654>>>" ++ check (runes_of_ascii "MetaData u
+    { } MetaData o
+{ float uint8x
+`100% of %d` ,repeatCount u8x, string_ leftPad
+, i32
+    Foo , int64 uint8 `two words` , calculatedFrom
+stringy `a\` ,
+}
+")).
+Eval vm_compute in ("<<<M702>>>" ++ check (runes_of_ascii "MetaData u
+    { } MetaData o
+{ float uint8x
+`100% of %d` ,repeatCount u8x, string_ leftPad
+, i32
+    Foo , int64 x `two words` , calculatedFrom
+< stringy `a\` ,
+}
+")).
+Eval vm_compute in ("<<<M618>>>" ++ check (runes_of_ascii "MetaData u
+    { } MetaData o
+{ float uint8x
+`100% of %d` ,repeatCount u8x, leftPad string_
+, i32
+    Foo , int64 x `two words` , calculatedFrom
+stringy `a\` ,
+}
+")).
+Eval vm_compute in ("<<<M681>>>" ++ check (runes_of_ascii "MetaData u
+    { } MetaData o
+{ float uint8x
+`100% of %d` ,repeatCount u8x, string_ leftPad
+, i32
+    Foo , int64 x `two words` , calculatedFrom
+stringy `a\` 
+}
+")).
+Eval vm_compute in ("<<<M621>>>" ++ check (runes_of_ascii "MetaData u
+    { } MetaData o
+{ float uint8x
+`100% of %d` ,repeatCount u8x, string_ 
+, i32
+    Foo , int64 x `two words` , calculatedFrom
+stringy `a\` ,
+}
+")).
+Eval vm_compute in ("<<<M1416>>>" ++ check (runes_of_ascii "
+
+  options 	 // c
+	{
+    } options
+	{
+MetaDataX= char;
     }
-MetaData chars{
-leftPad
-    //	t
-    crc
-`" ++ [233]%N ++ runes_of_ascii "`
-,}")).
-Eval vm_compute in ("<<<M1449>>>" ++ check (runes_of_ascii "packet A {
+
+    MetaData
+
+    Pad	{	i8
+metadata ,
+string stringy
+,
+	int8
+As
+
+`{ , }`  , }
+")).
+Eval vm_compute in ("<<<M288>>>" ++ check (runes_of_ascii "packet
+    asx
+{ f32
+    u
+@calculatedFrom(
+""packet"" )  , } MetaData tag
+{ zchar[ 007 ] pack, zchar[00 ]// packet A { u8 x, }
+len`
+` , }")).
+Eval vm_compute in ("<<<M1661>>>" ++ check (runes_of_ascii "packet A {
     match k as n {
         [
-            ""a"", ""bb"", ""c c"", ""d"", ""e"",
-            ""f"", ""g"", ""h"", ""i"", ""j""
+            1, 22, ""c c"", 4, 5,
+            ""f"", 7, 8
         ] : B,
         2 : C,
     },
 }")).
-Eval vm_compute in ("<<<M1283>>>" ++ check (runes_of_ascii "
-
-  options
-{
-
-    LittleEndian =
-true; }
-packet 
-B 
-{ u8
-    a 
-,  string s,
-    } root
-packet
-	P
-	{ u16
-L@lengthOf(
-B )
-,
-
-B
-
-,	u8
-
-t, 
-}
-")).
-Eval vm_compute in ("<<<M690>>>" ++ check (runes_of_ascii "MetaData u
-    { } MetaData o
-{ float uint8x
-`100% of %d` ,repeatCount u8x, string_ leftPad
-, i32
-    Foo , int64 x `two words` , cal")).
-Eval vm_compute in ("<<<M1451>>>" ++ check (runes_of_ascii "
-packet
-
-    u8x	{ 
-}
-
-MetaData
-Pad{ //
-  trueish  lengthOf 	 // 50% %s
-  ,
-
-}root packet
-
-trueish
-	{ 
-//
-	// 50% %s
-
-}
-
-")).
-Eval vm_compute in ("<<<M1657>>>" ++ check (runes_of_ascii "root packet f32a {
-    float32 pack `// not a comment`,// `tick` ""quote"" 'q'
-}
-
-packet chars {
-    //	t
-    // " ++ [128512]%N ++ runes_of_ascii " emoji
-}")).
-Eval vm_compute in ("<<<M1204>>>" ++ check (runes_of_ascii "options
-// c
-{ } options { MetaDataX = char ; } MetaData Pad { i8 metadata , string stringy , int8 As `{ , }` , }")).
-Eval vm_compute in ("<<<M1236>>>" ++ check (runes_of_ascii "options { } options { MetaDataX = char ; } MetaData Pad { i8 metadata , string
-// c
-stringy , int8 As `{ , }` , }")).
-Eval vm_compute in ("<<<M917>>>" ++ check (runes_of_ascii "packet A {
-    u16 len @lengthOf(body) `a
-b`,
-    u32 crc @calculatedFrom(""CRC32"") `a
-b`,
-    string body,
-}")).
-Eval vm_compute in ("<<<M373>>>" ++ check (runes_of_ascii "
-MetaData //x
-o {
-i8
-    lengthOf `two words` , msg_type MetaDataX ``
-, /// triple
-u32 int `a\` , }")).
-Eval vm_compute in ("<<<M1482>>>" ++ check (runes_of_ascii "options{
-
-asx 
-// " ++ [128512]%N ++ runes_of_ascii " emoji
-    =  char  }	options  {
-    }
-
-packet
-    BodyLength {
-
-a1 uint8x ,
-
-}
-")).
-Eval vm_compute in ("<<<M869>>>" ++ check (runes_of_ascii "packet A {
-  match k as n {
-    [""a"", 22, ""c c"", 4, ""e"", 66, ""g"", 8, ""i""] : B,
-    2 : C
-  },
-}")).
-Eval vm_compute in ("<<<M249>>>" ++ check (runes_of_ascii "MetaData charz
-{
-    pack MetaDataX
-    , falsey crc  , u32
-    u `// not a comment`
-,}
-")).
-Eval vm_compute in ("<<<M827>>>" ++ check (runes_of_ascii "packet A {
-  match k as n {
-    [""a"", ""bb"", ""c c"", ""d"", ""e"", ""f""] : B
-    2 : C
-  },
-}")).
-Eval vm_compute in ("<<<M1769>>>" ++ check (runes_of_ascii "root 
-packet
-Packet{ match
-
-    f32a
-    as
-Foo// " ++ [27880; 37322]%N ++ runes_of_ascii "
-{
-    1 :
-    tag	, }
-, }")).
-Eval vm_compute in ("<<<M1263>>>" ++ check (runes_of_ascii "packet Inner {
+Eval vm_compute in ("<<<M1272>>>" ++ check (runes_of_ascii "packet B {
     u8 a,
 }
 root packet P {
-    repeat Inner items,
-    u8 x,
+    u8 K,
+    u64 L @lengthOf(Body),
+    match K as Body {
+        1 : B,
+    },
 }
 ")).
-Eval vm_compute in ("<<<M819>>>" ++ check (runes_of_ascii "packet A {
+Eval vm_compute in ("<<<M1202>>>" ++ check (runes_of_ascii "
+// c
+options { } options { MetaDataX = char ; } MetaData Pad { i8 metadata , string stringy , int8 As `{ , }` , }")).
+Eval vm_compute in ("<<<M1227>>>" ++ check (runes_of_ascii "options { } options { MetaDataX = char ; } MetaData Pad { // c
+i8 metadata , string stringy , int8 As `{ , }` , }")).
+Eval vm_compute in ("<<<M235>>>" ++ check (runes_of_ascii "// " ++ [128512]%N ++ runes_of_ascii " emoji
+packet lengthOf {zchar[
+1
+    ]u8x
+    `tab	here` ,}packet packetx{@leftPad ( ) f32a `it's`
+    , }")).
+Eval vm_compute in ("<<<M929>>>" ++ check (runes_of_ascii "packet A {
+    u16 len @lengthOf(body) `
+`,
+    u32 crc @calculatedFrom(""CRC32"") `
+`,
+    string body,
+}")).
+Eval vm_compute in ("<<<M640>>>" ++ check (runes_of_ascii "MetaData u
+    { } MetaData o
+{ float uint8x
+`100% of %d` ,repeatCount u8x, string_ leftPad
+, i32")).
+Eval vm_compute in ("<<<M1278>>>" ++ check (runes_of_ascii "packet B {
+    u8 a,
+    string s,
+}
+root packet P {
+    u16 L @lengthOf(B),
+    B,
+    u8 t,
+}
+")).
+Eval vm_compute in ("<<<M868>>>" ++ check (runes_of_ascii "packet A {
   match k as n {
-    [1, 22, ""c c"", 4, 5] : B,
+    [1, ""bb"", 007, ""d"", 5, ""f"", 7, ""h"", 9] : B
     2 : C
   },
 }")).
-Eval vm_compute in ("<<<M812>>>" ++ check (runes_of_ascii "packet A {
+Eval vm_compute in ("<<<M1624>>>" ++ check (runes_of_ascii "packet	A
+	{	u16 // a
+	len// b
+  @lengthOf(  // c
+body  // d
+  	)	// e
+`d`  // f
+	,
+
+}")).
+Eval vm_compute in ("<<<M982>>>" ++ check (runes_of_ascii "packet A {
+    u32 crc @calculatedFrom(""x\
+y""),
+    @calculatedFrom(""x\
+y"") u8 y,
+}")).
+Eval vm_compute in ("<<<M822>>>" ++ check (runes_of_ascii "packet A {
   match k as n {
-    [1, 22, 007, 4, 5] : B
+    [""a"", ""bb"", 007, ""d"", ""e""] : B
     2 : C
   },
 }")).
+Eval vm_compute in ("<<<M1850>>>" ++ check (runes_of_ascii "packet A {
+    B b `a
+    b`,
+    B `a
+    b`,
+    repeat B bs `a
+    b`,
+}")).
+Eval vm_compute in ("<<<M738>>>" ++ check (runes_of_ascii "i64 len u8 true : uint16 ' ' int32 : options @lengthOf( char[] MetaData")).
 Eval vm_compute in ("<<<M1300>>>" ++ check (runes_of_ascii "  root packet P
 
     {
@@ -1085,62 +1219,66 @@ repeat
 u16 ns
 	, }
 ")).
-Eval vm_compute in ("<<<M275>>>" ++ check (runes_of_ascii "  root packet lengthOf { repeatCount { uint64 u8x , }
-    , }")).
-Eval vm_compute in ("<<<M1869>>>" ++ check (runes_of_ascii "root packet P {
-    repeat string ss,
-    repeat u16 ns,
-}")).
-Eval vm_compute in ("<<<M1704>>>" ++ check (runes_of_ascii "packet A {
-    u8 x `a
-            b
-          c`,
-}")).
-Eval vm_compute in ("<<<M425>>>" ++ check (runes_of_ascii "packet
-    asx { @calculatedFrom(
-""""  ) @tag(")).
-Eval vm_compute in ("<<<M1085>>>" ++ check (runes_of_ascii "packet A {
-    u8 x,    // c    u8 y,
-}")).
-Eval vm_compute in ("<<<M1297>>>" ++ check (runes_of_ascii "  root 
-packet 
-P 
-{
-	string
-	s,  }
+Eval vm_compute in ("<<<M1812>>>" ++ check (runes_of_ascii "
+root packet 
+len{
+	@calculatedFrom( ""a\""b""
+)
+    i16 a1	,	}")).
+Eval vm_compute in ("<<<M1949>>>" ++ check (runes_of_ascii "  MetaData	// " ++ [27880; 37322]%N ++ runes_of_ascii "
 
-")).
-Eval vm_compute in ("<<<M1416>>>" ++ check (runes_of_ascii "
-// c 	
-    packet
-A
-	{
+Foo  {
 
-    }
+rootA  f32a
+    //
+  ,
 
-")).
-Eval vm_compute in ("<<<M932>>>" ++ check (runes_of_ascii "root packet A {
-    u8 x `
-`,
-}")).
-Eval vm_compute in ("<<<M174>>>" ++ check (runes_of_ascii "packet T  { string pack , }
-")).
-Eval vm_compute in ("<<<M1955>>>" ++ check (runes_of_ascii "packet
-
-A
-
-{  } 	 // c" ++ [8239]%N ++ runes_of_ascii "
-")).
-Eval vm_compute in ("<<<M1130>>>" ++ check (runes_of_ascii "MetaData tag { } // c
-")).
-Eval vm_compute in ("<<<M995>>>" ++ check (runes_of_ascii "packet A {
 }
-// c ")).
-Eval vm_compute in ("<<<M1076>>>" ++ check (runes_of_ascii "// c" ++ [6158]%N ++ runes_of_ascii "
-packet A {
-}")).
-Eval vm_compute in ("<<<M1171>>>" ++ check (runes_of_ascii "packet x { // c
-}")).
-Eval vm_compute in ("<<<M560>>>" ++ check (runes_of_ascii "MetaData u")).
-Eval vm_compute in ("<<<M159>>>" ++ check (runes_of_ascii "  
+//	t")).
+Eval vm_compute in ("<<<M73>>>" ++ check (runes_of_ascii "options {
+} packet
+Foo
+{
+// 50% %s
+// @lengthOf(
+}
 ")).
+Eval vm_compute in ("<<<M1494>>>" ++ check (runes_of_ascii "
+options
+    {
+
+a=""%d%s""; b
+=
+    ""%d%s""
+
+} ")).
+Eval vm_compute in ("<<<M1767>>>" ++ check (runes_of_ascii "root packet A {
+    u8 x `x
+        `,
+}")).
+Eval vm_compute in ("<<<M933>>>" ++ check (runes_of_ascii "packet A {
+    u8 x `a
+    b
+  c`,
+}")).
+Eval vm_compute in ("<<<M276>>>" ++ check (runes_of_ascii "packet crc// `tick` ""quote"" 'q'
+{}")).
+Eval vm_compute in ("<<<M1711>>>" ++ check (runes_of_ascii "packet A {
+    u8 x `a
+    b`,
+}")).
+Eval vm_compute in ("<<<M81>>>" ++ check (runes_of_ascii "options {} // trailing space ")).
+Eval vm_compute in ("<<<M749>>>" ++ check (runes_of_ascii "f64 char[ false u8 string")).
+Eval vm_compute in ("<<<M90>>>" ++ check (runes_of_ascii "
+packet Packet {
+} 	 ")).
+Eval vm_compute in ("<<<M570>>>" ++ check (runes_of_ascii "MetaData u
+    { }")).
+Eval vm_compute in ("<<<M1075>>>" ++ check (runes_of_ascii "packet A {
+}
+// c" ++ [6158]%N)).
+Eval vm_compute in ("<<<M1169>>>" ++ check (runes_of_ascii "packet x // c
+{ }")).
+Eval vm_compute in ("<<<M755>>>" ++ check (runes_of_ascii "
+'" ++ [17]%N ++ runes_of_ascii "=" ++ [65533; 65533; 65533]%N ++ runes_of_ascii "M" ++ [65533; 65533; 1631]%N)).
+Eval vm_compute in ("<<<M1074>>>" ++ check (runes_of_ascii "// c" ++ [6158]%N)).
